@@ -76,6 +76,9 @@ Proof. auto with vt. Qed.
 Lemma steps_log s s' e : steps s s' -> quiet s' e -> steps s (add_log s' e).
 Proof. intros H Q. eapply steps_snoc; [exact H | apply P_log; exact Q]. Qed.
 
+Lemma steps_clock s s' c : steps s s' -> clock s' <= c -> steps s (set_clock s' c).
+Proof. intros H Q. eapply steps_snoc; [exact H | apply P_clock; exact Q]. Qed.
+
 Lemma add_notes_steps ns : forall s, steps s (add_notes s ns).
 Proof.
   induction ns as [|n t IH]; intro s; simpl; [apply steps_refl|].
@@ -137,11 +140,13 @@ Proof.
   destruct (p_disposed pi) eqn:Hd; [apply steps_refl|].
   assert (H1 : steps s (add_log s (ETick pid stt (clock s)))).
   { apply add_log_steps. simpl. split; [reflexivity|]. exists pi. split; assumption. }
-  destruct (plookup (p_fn pi) stt) as [ns st'|ns|ns e|ns e v]; simpl.
+  destruct (plookup (p_fn pi) stt) as [ns sl st'|ns|ns e|ns e v]; simpl.
   - eapply steps_snoc; [|apply P_enq].
-    eapply steps_snoc; [eapply steps_trans; [exact H1 | apply add_notes_steps]|].
-    eapply P_per_upd with (pi := pi); simpl; auto; try (intro; congruence).
-    destruct (add_notes_pers ns (add_log s (ETick pid stt (clock s)))) as [-> _]. exact Hn.
+    set (s2 := add_notes (add_log s (ETick pid stt (clock s))) ns).
+    apply steps_snoc with (s' := set_clock s2 (clock s2 + Z.of_N sl)).
+    + apply steps_clock; [eapply steps_trans; [exact H1 | apply add_notes_steps] | lia].
+    + eapply (P_per_upd (set_clock s2 (clock s2 + Z.of_N sl)) pid pi); simpl; auto; try (intro; congruence).
+      unfold s2. destruct (add_notes_pers ns (add_log s (ETick pid stt (clock s)))) as [-> _]. exact Hn.
   - eapply steps_trans; [|apply resched_disposed_steps].
     eapply steps_trans; [exact H1 | apply add_notes_steps].
   - eapply steps_trans; [|apply dispose_per_steps].
